@@ -125,7 +125,7 @@ def steady_state_transport_solver(
             "Warning: Number of Fourier modes must not exeed number of grid cells."
         )
         logger.info("Setting both equal.")
-        nlx, nly = nxe, nye
+        nlx, nly = min(nlx, nxe), min(nly, nye)
 
     # Deltas for truncated Fourier transform
     dlx, dly = (nxe - nlx) // 2, (nye - nly) // 2
